@@ -198,6 +198,18 @@ class Context:
                             z3.Implies(x < 0, 2 * r > 1)), "Q(0)=1/2, Q decreasing through 1/2")
         elif name == 'pow2i':
             self._ax(z3.Implies(x >= 0, r >= 1), "2^k>=1")
+        elif name == 'erfc':
+            s2 = self.uf_apply('sqrt', [lift(2.0)])
+            q = self.uf_apply('qfunc', [SNum(x, 'real') * s2])
+            self._ax(r == 2 * q.t, "erfc(y) = 2 Q(sqrt(2) y)")
+        elif name == 'powi':
+            b, e = a[0], a[1]
+            self._ax(z3.Implies(z3.And(b >= 0, b <= 1, e >= 1), z3.And(r >= 0, r <= b)), "0<=b<=1,e>=1 => 0<=b^e<=b")
+            self._ax(z3.Implies(e == 1, r == b), "b^1=b")
+            for (o, ro) in self.apps[name][:-1]:
+                self._ax(z3.Implies(z3.And(o[1] == e, e >= 1, b >= 0, o[0] >= 0),
+                                    z3.And((b <= o[0]) == (r <= ro), (b == o[0]) == (r == ro))),
+                         "b^e increasing in b>=0 for fixed e>=1")
         # pairwise monotonicity / injectivity instances with earlier applications
         if name in MONO_INC or name in MONO_DEC:
             for (b, rb) in self.apps[name][:-1]:
